@@ -4,3 +4,7 @@ import Rpki.Props.C11
 #print axioms Rpki.Props.C11.attribute_value_roundtrip
 #print axioms Rpki.Props.C11.object_text_roundtrip
 #print axioms Rpki.Props.C11.side_conditions_needed
+#print axioms Rpki.Props.C11.publication_roundtrip
+#print axioms Rpki.Props.C11.publication_tree_wf
+#print axioms Rpki.Props.C11.publication_injective
+#print axioms Rpki.Props.C11.publication_norm_needed
